@@ -7,6 +7,7 @@ package main
 import (
 	"fmt"
 	"go/token"
+	"go/types"
 	"strings"
 
 	"golang.org/x/tools/go/ssa"
@@ -631,6 +632,56 @@ func init() {
 				return
 			}
 			r.ok(key, fnName(fn), c.pos(call.Pos()), "reload iff term.Field() != lastField; lastField and dict updated together")
+			// path form of the same invariant: on every path through one iteration
+			// of the term loop the remembered field changes iff the cached
+			// dictionary does, and then to (this term's field, the dictionary
+			// loaded for it) — an early `continue` must not leave one of them behind
+			key = fnName(fn) + "/coherent-on-every-path"
+			hdr := last.Block()
+			var dictHdr *ssa.Phi
+			for _, ins := range hdr.Instrs {
+				if ph, ok := ins.(*ssa.Phi); ok && ph != last && dictRes != nil && types.Identical(ph.Type(), dictRes.Type()) {
+					dictHdr = ph
+				}
+			}
+			if !isLoopHeader(hdr) || dictHdr == nil {
+				r.undecided(key, fnName(fn), c.pos(call.Pos()), "the remembered field / cached dictionary are not loop-carried values of one loop")
+				return
+			}
+			body := loopBody(hdr)
+			paths, complete := iterPaths(hdr, hdr.Succs[0], body, 4000)
+			if !complete {
+				r.undecided(key, fnName(fn), c.pos(call.Pos()), "too many paths through the term loop")
+				return
+			}
+			np := 0
+			for _, pth := range paths {
+				if pth.exit || len(pth.blocks) == 0 {
+					continue
+				}
+				np++
+				tail := pth.blocks[len(pth.blocks)-1]
+				var lastOut, dictOut ssa.Value
+				for i, pr := range hdr.Preds {
+					if pr == tail {
+						lastOut = resolveOnPath(last.Edges[i], hdr, pth.blocks)
+						dictOut = resolveOnPath(dictHdr.Edges[i], hdr, pth.blocks)
+					}
+				}
+				lastSame, dictSame := lastOut == ssa.Value(last), dictOut == ssa.Value(dictHdr)
+				switch {
+				case lastSame && dictSame:
+				case !lastSame && !dictSame && lastOut == cur && dictOut == ssa.Value(dictRes):
+				default:
+					r.bad(key, fnName(fn), c.pos(call.Pos()), "on the path "+blockList(pth.blocks)+" through one iteration the remembered field becomes "+exprSig(lastOut, 0)+" while the cached dictionary becomes "+exprSig(dictOut, 0)+": the next term of that field would be looked up in a dictionary loaded for another field")
+					return
+				}
+			}
+			if np == 0 {
+				r.undecided(key, fnName(fn), c.pos(call.Pos()), "no path through the term loop")
+				return
+			}
+			r.ok(key, fnName(fn), c.pos(call.Pos()), fmt.Sprintf("%d paths through one iteration: (lastField, dict) change together or not at all", np))
 		},
 	})
 }
